@@ -3,6 +3,8 @@ package cliworld
 import (
 	"fmt"
 	"net"
+	"os"
+	"runtime/pprof"
 	"strings"
 	"sync"
 	"testing"
@@ -18,13 +20,19 @@ import (
 // CStorm is a client-side concurrency case: writers, a reader, peers and Close act concurrently
 // against a real client/server pair.
 type CStorm struct {
-	Seed       uint64 `json:"seed"`
-	Writers    int    `json:"writers"`
-	Rounds     int    `json:"rounds"`
-	CloseRound int    `json:"close_round"`  // relayed socket closed in this round, racing with the writers
-	ClientCloseRound int `json:"client_close_round"` // Client.Close in this round (-1: at the end)
-	LifetimeS  int    `json:"lifetime_s"`
-	IdleGapS   int    `json:"idle_gap_s"` // everybody pauses this long in the middle (crossing the nonce horizon makes every refresh path hit 438 at once)
+	Seed             uint64 `json:"seed"`
+	Writers          int    `json:"writers"`
+	Rounds           int    `json:"rounds"`
+	CloseRound       int    `json:"close_round"`        // relayed socket closed in this round, racing with the writers
+	ClientCloseRound int    `json:"client_close_round"` // Client.Close in this round (-1: at the end)
+	LifetimeS        int    `json:"lifetime_s"`
+	IdleGapS         int    `json:"idle_gap_s"` // everybody pauses this long in the middle (crossing the nonce horizon makes every refresh path hit 438 at once)
+	// RefusedEvery > 0: every n-th write of a writer goes to a peer the server refuses (403), so that
+	// failing CreatePermission transactions overlap the permission refresh timer (PermRefreshMs) while
+	// responses take CtlDelayMs to arrive
+	RefusedEvery  int `json:"refused_every,omitempty"`
+	PermRefreshMs int `json:"perm_refresh_ms,omitempty"`
+	CtlDelayMs    int `json:"ctl_delay_ms,omitempty"`
 }
 
 type cstormResult struct{ kind, msg string }
@@ -44,6 +52,14 @@ func runCStorm(t *testing.T, s *CStorm) (res cstormResult) {
 			panic(p)
 		}
 	}()
+	// a lock-up (two goroutines waiting for each other's mutex) freezes the bubble's clock for good:
+	// a wall-clock watchdog outside the bubble turns that into a crash report with all stacks
+	watchdog := time.AfterFunc(90*time.Second, func() {
+		fmt.Println("fatal error: lock-up: the client storm made no progress for 90 s of wall-clock time (goroutines waiting for mutexes cannot be woken by virtual time)")
+		_ = pprof.Lookup("goroutine").WriteTo(os.Stdout, 1)
+		os.Exit(3)
+	})
+	defer watchdog.Stop()
 	synctest.Test(t, func(t *testing.T) { res = runCStormInner(s) })
 
 	return res
@@ -61,14 +77,25 @@ func runCStormInner(s *CStorm) (res cstormResult) {
 		},
 		AllocationLifetime: time.Duration(s.LifetimeS) * time.Second,
 		PacketConnConfigs: []turn.PacketConnConfig{{PacketConn: srvSock,
-			RelayAddressGenerator: &turn.RelayAddressGeneratorStatic{RelayAddress: net.IPv4(10, 9, 0, 1), Address: "10.9.0.1", Net: tn}}},
+			RelayAddressGenerator: &turn.RelayAddressGeneratorStatic{RelayAddress: net.IPv4(10, 9, 0, 1), Address: "10.9.0.1", Net: tn},
+			PermissionHandler:     func(_ net.Addr, ip net.IP) bool { v4 := ip.To4(); return v4 == nil || v4[3] < 240 }}},
 	})
+	if s.CtlDelayMs > 0 {
+		n.Fault = func(d *sim.Datagram) sim.FaultAction {
+			if d.SrcSock == srvSock.ID && isSTUN(d.Data) {
+				return sim.FaultAction{Delay: time.Duration(s.CtlDelayMs)*time.Millisecond + 211*time.Microsecond}
+			}
+
+			return sim.FaultAction{}
+		}
+	}
 	if err != nil {
 		return cstormResult{"harness", err.Error()}
 	}
 	csock, _ := n.BindUDP("udp4", net.IPv4(10, 1, 0, 1), 5000)
 	cl, err := turn.NewClient(&turn.ClientConfig{STUNServerAddr: "10.0.0.1:3478", TURNServerAddr: "10.0.0.1:3478", Conn: csock, Net: tn,
-		Username: "alice", Password: "pw", Realm: "sim.realm", LoggerFactory: logger, RTO: 100 * time.Millisecond})
+		Username: "alice", Password: "pw", Realm: "sim.realm", LoggerFactory: logger, RTO: 100 * time.Millisecond,
+		PermissionRefreshInterval: time.Duration(s.PermRefreshMs) * time.Millisecond})
 	if err != nil {
 		return cstormResult{"harness", err.Error()}
 	}
@@ -99,6 +126,11 @@ func runCStormInner(s *CStorm) (res cstormResult) {
 					pi = i + s.Writers // a new peer after the pause: all writers need a permission at the same instant
 				}
 				pa := &net.UDPAddr{IP: net.IPv4(10, 2, 0, byte(pi+1)), Port: 7000}
+				if s.RefusedEvery > 0 && r%s.RefusedEvery == i%s.RefusedEvery {
+					// (a refused peer of the writer's own: two writers waiting for one permission's mutex
+					// while its holder waits for a delayed response would freeze the virtual clock)
+					_, _ = relay.WriteTo([]byte("refused"), &net.UDPAddr{IP: net.IPv4(10, 2, 0, byte(240+i)), Port: 7000})
+				}
 				_, _ = relay.WriteTo([]byte(fmt.Sprintf("w%d r%d", i, r)), pa)
 				_, _ = peers[pi].WriteTo([]byte(fmt.Sprintf("p%d r%d", i, r)), relayAddr)
 			}
@@ -194,6 +226,12 @@ func TestC18Client(t *testing.T) {
 		}
 		s.LifetimeS = rapid.SampledFrom([]int{0, 2, 4, 10, 60}).Draw(rt, "lifetime")
 		s.IdleGapS = rapid.SampledFrom([]int{0, 0, 3700, 3660, 7300}).Draw(rt, "idleGap")
+		if rapid.IntRange(0, 1).Draw(rt, "refused") == 0 {
+			s.RefusedEvery = rapid.IntRange(1, 3).Draw(rt, "refusedEvery")
+			s.PermRefreshMs = rapid.SampledFrom([]int{500, 1000, 1000, 2000, 3000}).Draw(rt, "permRefresh")
+			s.CtlDelayMs = rapid.SampledFrom([]int{0, 100, 300, 700, 1200}).Draw(rt, "ctlDelay")
+			s.IdleGapS = 0 // (thousands of refresh ticks under the race detector otherwise)
+		}
 		if s.IdleGapS > 0 && s.LifetimeS > 0 && s.LifetimeS < 60 {
 			s.LifetimeS = 0 // keep the allocation alive across the gap
 		}
